@@ -71,6 +71,10 @@ def gen(prop, stream, tier, avoid):
                 for _ in range(nd_)]
         spec = shapes.gen_shape(rng, kind=kind, max_size=8 if kind == "curve" else (6 if kind == "surface" else 4), degrees=degs)
         spec["delta"] = rng.pick([0.5, 0.25, 0.2]) if kind != "curve" else rng.pick([0.25, 0.125, 0.1])
+        if rng.chance(0.25) and "unnormalised" not in avoid:
+            # knot vectors kept in their original range a + L*[0,1] (normalize_kv=False), a and L dyadic per direction
+            spec["aL"] = [[rng.pick([-2.0, 0.0, 1.0, 3.5]), rng.pick([0.5, 1.0, 2.0, 4.0])] for _ in range(nd_)]
+            spec["knots"] = [shapes.affine_knots(kv, a, L) for kv, (a, L) in zip(spec["knots"], spec["aL"])]
         objs.append(spec)
     nops = kn.pick([2, 3, 4, 5, 6, 8, 10, 12, 16])
     w_ins = kn.uniform(1.0, 3.0)
@@ -130,6 +134,13 @@ def simplify(script):
             objs = list(script["objects"])
             objs[i] = sp2
             yield dict(script, objects=objs)
+    for i, sp in enumerate(script["objects"]):
+        if sp.get("aL") and i in used:
+            sp2 = dict(sp, knots=[[(k - a) / L for k in kv] for kv, (a, L) in zip(sp["knots"], sp["aL"])])
+            sp2.pop("aL")
+            objs = list(script["objects"])
+            objs[i] = sp2
+            yield dict(script, objects=objs)
     # single-direction versions of multi-direction ops
     for i, op in enumerate(script["ops"]):
         if op["op"] in ("insert", "remove") and len(op["dirs"]) > 1:
@@ -160,8 +171,9 @@ def sample_view(script, res):
 class Live:
     def __init__(self, spec, num):
         self.spec = spec
-        self.obj = shapes.build(spec)
+        self.obj = shapes.build(spec, normalize_kv=False) if spec.get("aL") else shapes.build(spec)
         nd = shapes.DIRS[spec["kind"]]
+        self.aL = spec.get("aL") or [[0.0, 1.0]] * nd
         if nd == 1:
             self.obj.delta = spec["delta"]
         else:
@@ -200,12 +212,13 @@ class Live:
 
 
 def _resolve_at(lv, d, at):
+    a, L = lv.aL[d]
     if at[0] == "knot":
         ik = lv.interior(d)
         if ik:
             return ik[at[1] % len(ik)], True
-        return 0.5, False
-    return at[1] / 128.0, False
+        return a + L * 0.5, False
+    return a + L * (at[1] / 128.0), False
 
 
 def _sample_points(lv, rng_seed):
@@ -270,7 +283,7 @@ def _check_evalpts(ctx, lv, what, step_sig):
     if not lv.evalpts_read:
         return
     got = [list(p) for p in lv.obj.evalpts]
-    exp = [list(p) for p in shapes.twin(lv.obj).evalpts]
+    exp = [list(p) for p in (shapes.twin(lv.obj, normalize_kv=False) if lv.spec.get("aL") else shapes.twin(lv.obj)).evalpts]
     ok, why = close(got, exp, 1e-9)
     if not ok:
         ctx.fail("stale_evalpts", "after %s evalpts differ from a fresh evaluation of the same definition (%s)" % (what, why), **step_sig)
@@ -335,6 +348,10 @@ def run(script, ctx):
     for spec in script["objects"]:
         world.append(Live(spec, num))
     ctx.log("built", [(lv.spec["kind"], lv.spec["rational"], lv.degrees, lv.sizes) for lv in world])
+    for lv in world:
+        if lv.spec.get("aL"):
+            ctx.probe("unnormalised_object")
+        ctx.probe("object:" + lv.spec["kind"] + (":rational" if lv.spec["rational"] else ""))
     base_seed = h64(script.get("seed", 0), script.get("run", 0), "oracle")
     n_removals = 0
     for idx, op in enumerate(script["ops"]):
